@@ -1,17 +1,17 @@
 """The system-level harness shared by C01, C02, C04, C05, C06, C07, C08."""
-from ..ops import (Eq, And, Or, Not, Implies, Iff, IsZero, Gt, Ge, Lt, Le, Abs, cond, Ite, Sum, TRUE, FALSE)
+from ..ops import (Eq, And, Or, Not, Implies, Iff, IsZero, Gt, Ge, Lt, Le, Abs, cond, Ite, Sum, TRUE, FALSE, Div)
 from .. import spec, sysh
 
 
 def s_run(ctx, shape, oracle, opts=None):
-    opts = opts or {}
-    sysobj, info, durations = sysh.build_system(ctx, shape, assume_nonneg=opts.get("nonneg", True))
+    opts = dict(opts or {})
+    sysobj, info, durations = sysh.build_system(ctx, shape, assume_nonneg=opts.get("nonneg", True), rt=opts.get("rt", "none"))
     kw = {}
     for k in ("energy", "phase"):
         if k in opts:
             kw[k] = opts[k]
     if opts.get("ta"):
-        kw["ta"] = ctx.real("ta")
+        kw["ta"] = opts["_ta"] = ctx.real("ta")
     try:
         df = sysh.run_solve(ctx, sysobj, shape, **kw)
     except sysh.Unstable:
@@ -54,7 +54,7 @@ def child_current(info, shape, name, rows):
 
 def oracle_c01(ctx, shape, info, rows_by_phase, durations, opts, df, sysobj):
     for ph, rows in rows_by_phase.items():
-        if ph not in ([""] + list(durations)):
+        if ph not in (list(durations) if durations else [""]):
             continue  # the "System average" row
         for nd in shape["nodes"]:
             name, kind = nd["name"], nd["kind"]
@@ -96,7 +96,7 @@ def oracle_c01(ctx, shape, info, rows_by_phase, durations, opts, df, sysobj):
 def oracle_c02(ctx, shape, info, rows_by_phase, durations, opts, df, sysobj):
     ta = 25.0
     for ph, rows in rows_by_phase.items():
-        if ph not in ([""] + list(durations)):
+        if ph not in (list(durations) if durations else [""]):
             continue
         src_p, load_p, losses = [], [], []
         for nd in shape["nodes"]:
@@ -182,4 +182,201 @@ def oracle_c02(ctx, shape, info, rows_by_phase, durations, opts, df, sysobj):
         ctx.check("total-efficiency<=100", Implies(And(*allpol), Le(tot["eff"], 100.0)), info={"phase": ph})
 
 
-ORACLES = {"c01": oracle_c01, "c02": oracle_c02}
+# ---------------------------------------------------------------------------------------------------
+def source_of(info, name):
+    """Spec attribution for nodes that are not below a mux: the unique source ancestor (or None below a mux)."""
+    n = name
+    while True:
+        ps = info[n]["parents"]
+        if not ps:
+            return n
+        if len(ps) > 1:
+            return None
+        n = ps[0]
+
+
+def domain_alts(info, name, rows):
+    """Spec attribution: list of (Cond, source name).  Below a mux the source of the selected input."""
+    n = name
+    while True:
+        ps = info[n]["parents"]
+        if not ps:
+            return [(TRUE, n)]
+        if len(ps) > 1:
+            sel, none = sysh.mux_selected(info, n, rows)
+            alts = []
+            for k, p in enumerate(ps):
+                for c2, s in domain_alts(info, p, rows):
+                    alts.append((And(sel[k], c2), s))
+            return alts
+        n = ps[0]
+
+
+def cause_dead(info, shape, name, ph, memo=None):
+    """Spec: 'the supply of <name> is at 0 V because of a dead rail' as a Cond over the *configuration*
+    (0 V sources, phase-inactive sources / converters / regulators / switches / mux, mux without live input)."""
+    def out_dead(n):
+        kind, P = info[n]["kind"], info[n]["P"]
+        inactive = not sysh.is_active(info, n, ph)
+        if kind == "Source":
+            return Or(IsZero(P["vo"]), cond(inactive))
+        return Or(supply_dead(n), cond(inactive and kind in spec.PHASED_LIST))
+
+    def supply_dead(n):
+        ps = info[n]["parents"]
+        return And(*[out_dead(p) for p in ps])
+
+    return supply_dead(name) if info[name]["parents"] else out_dead(name)
+
+
+def oracle_c04(ctx, shape, info, rows_by_phase, durations, opts, df, sysobj):
+    for ph, rows in rows_by_phase.items():
+        if ph not in (list(durations) if durations else [""]):
+            continue
+        for nd in shape["nodes"]:
+            name, kind = nd["name"], nd["kind"]
+            r, P = rows[name], info[name]["P"]
+            inf = {"row": name, "phase": ph, "kind": kind}
+            dead = cause_dead(info, shape, name, ph)
+            if dead.concrete() and not dead.t:
+                if kind == "Source" or not (kind in spec.PHASED_LIST and not sysh.is_active(info, name, ph)):
+                    continue
+            else:
+                ctx.cover("dead-possible")
+            quiet = And(IsZero(r["vout"]), IsZero(r["iin"]), IsZero(r["iout"]), IsZero(r["pwr"]), IsZero(r["loss"]))
+            if kind != "Source":
+                quiet = And(quiet, IsZero(r["vin"]))
+            ctx.check("dead-supply=>quiescent", Implies(dead, quiet), info=inf)
+            if kind in spec.PHASED_LIST and kind != "Source" and not sysh.is_active(info, name, ph):
+                ctx.cover("inactive-element")
+                iis = Abs(P.get("iis", 0.0))
+                live = And(Not(dead), Not(IsZero(r["vin"])))
+                ctx.check("inactive-draws-sleep-current", Implies(live, And(Eq(r["iin"], iis), IsZero(r["vout"]))), info=inf)
+                ctx.check("inactive-dissipates-sleep-power", Implies(live, And(Eq(r["pwr"], Abs(r["vin"]) * iis),
+                                                                          Eq(r["loss"], Abs(r["vin"]) * iis))), info=inf)
+            # consequence at every depth: a row whose reported input voltage is 0 V is quiescent
+            if kind != "Source":
+                ctx.check("zero-vin=>quiescent", Implies(IsZero(r["vin"]), And(IsZero(r["vout"]), IsZero(r["iin"]), IsZero(r["iout"]),
+                                                                               IsZero(r["pwr"]), IsZero(r["loss"]))), info=inf)
+
+
+def oracle_c05(ctx, shape, info, rows_by_phase, durations, opts, df, sysobj):
+    oracle_c01(ctx, shape, info, rows_by_phase, durations, opts, df, sysobj)
+    for ph, rows in rows_by_phase.items():
+        if ph not in (list(durations) if durations else [""]):
+            continue
+        for nd in shape["nodes"]:
+            name, kind = nd["name"], nd["kind"]
+            if kind != "PMux":
+                continue
+            r, P, ps = rows[name], info[name]["P"], info[name]["parents"]
+            sel, none = sysh.mux_selected(info, name, rows)
+            inf = {"row": name, "phase": ph}
+            pcell = r.get("parent", r.get("rail_in"))
+            for k, p in enumerate(ps):
+                want = p if "parent" in r else (info[p]["nd"].get("rail") or "")
+                ctx.check("reported-parent-is-selected-input", Implies(sel[k], cond(pcell == want)), info=inf)
+                ctx.check("vin-is-selected-input-voltage", Implies(sel[k], Eq(r["vin"], rows[p]["vout"])), info=inf)
+                # no other input sees any current from the mux
+                other = child_current(info, shape, p, rows)
+                mine = Sum([rows[c]["iin"] for c in sysh.children_of(shape, p) if c != name])
+                ctx.check("unselected-input-sees-no-mux-current", Implies(Not(sel[k]), Eq(rows[p]["iout"], mine)), info=inf)
+                ctx.check("selected-input-carries-mux-current", Implies(sel[k], Eq(rows[p]["iout"], mine + r["iin"])), info=inf)
+                if "domain" in r:
+                    for c2, s in domain_alts(info, p, rows):
+                        ctx.check("domain-is-source-of-selected-input", Implies(And(sel[k], c2), cond(r["domain"] == s)), info=inf)
+            quiet = And(IsZero(r["vout"]), IsZero(r["iin"]), IsZero(r["iout"]), IsZero(r["pwr"]), IsZero(r["loss"]))
+            ctx.check("no-live-input=>mux-dead", Implies(none, quiet), info=inf)
+            for c in sysh.children_of(shape, name):
+                rc = rows[c]
+                ctx.check("no-live-input=>subtree-dead", Implies(none, And(IsZero(rc["vin"]), IsZero(rc["vout"]), IsZero(rc["iin"]),
+                                                                           IsZero(rc["pwr"]), IsZero(rc["loss"]))), info={"row": c, "phase": ph})
+            if not none.concrete() or none.t:
+                ctx.cover("none-live-possible")
+
+
+def oracle_c07(ctx, shape, info, rows_by_phase, durations, opts, df, sysobj):
+    sources = [n["name"] for n in shape["nodes"] if n["kind"] == "Source"]
+    multi = len(sources) > 1
+    phase_tot = {}
+    for ph, rows in rows_by_phase.items():
+        if ph not in (list(durations) if durations else [""]):
+            continue
+        loss_by_src = {s: [] for s in sources}
+        all_loss, src_p = [], []
+        # efficiency cells are only meaningful for states in which no source / series element is overloaded
+        pol = []
+        for nd in shape["nodes"]:
+            if nd["kind"] in spec.LOADS:
+                continue
+            rs_sel = sel_terms(info, nd["name"], rows)[1] if nd["kind"] == "PMux" else None
+            pol.append(spec.keeps_polarity(nd["kind"], info[nd["name"]]["P"], rows[nd["name"]].get("vin"), rows[nd["name"]]["iout"], rs_sel=rs_sel))
+            if nd["kind"] == "Source":
+                pol.append(Ge(info[nd["name"]]["P"]["vo"], 0.0))
+        okp = And(*pol)
+        for nd in shape["nodes"]:
+            name, kind = nd["name"], nd["kind"]
+            r = rows[name]
+            inf = {"row": name, "phase": ph}
+            alts = domain_alts(info, name, rows)
+            if multi:
+                for c, s in alts:
+                    ctx.check("domain=powering-source", Implies(c, cond(r["domain"] == s)), info=inf)
+            all_loss.append(r["loss"])
+            if kind == "Source":
+                src_p.append(r["pwr"])
+            for s in sources:
+                cs = [c for c, s2 in alts if s2 == s]
+                if cs:
+                    loss_by_src[s].append(Ite(Or(*cs), r["loss"], 0.0) if not (len(cs) == 1 and cs[0] is TRUE) else r["loss"])
+            if opts.get("energy"):
+                ctx.check("energy=power*share-of-24h", Eq(r["energy"], energy_ref(r["pwr"], ph, durations)), info=inf)
+        if multi:
+            for s in sources:
+                sub = rows["Subsystem " + s]
+                rs_ = rows[s]
+                inf = {"row": "Subsystem " + s, "phase": ph}
+                live = Not(IsZero(rs_["vout"]))
+                ctx.check("subsystem-voltage=source-voltage", Implies(live, Eq(sub["vin"], info[s]["P"]["vo"])), info=inf)
+                ctx.check("subsystem-current=source-iout", Eq(sub["iout"], rs_["iout"]), info=inf)
+                ctx.check("subsystem-power=source-power", Eq(sub["pwr"], rs_["pwr"]), info=inf)
+                ctx.check("subsystem-loss=sum-of-member-losses", Eq(sub["loss"], Sum(loss_by_src[s])), info=inf)
+                ctx.check("subsystem-efficiency", Implies(And(okp, Gt(sub["pwr"], 0.0), Le(sub["loss"], sub["pwr"])), And(Eq(sub["eff"] * sub["pwr"], 100.0 * (sub["pwr"] - sub["loss"])), Le(sub["eff"], 100.0))), info=inf)
+                if opts.get("energy"):
+                    ctx.check("energy=power*share-of-24h", Eq(sub["energy"], energy_ref(sub["pwr"], ph, durations)), info=inf)
+        tot = rows["System total"]
+        inf = {"row": "System total", "phase": ph}
+        ctx.check("total-power=sum-of-sources", Eq(tot["pwr"], Sum(src_p)), info=inf)
+        ctx.check("total-loss=sum-of-losses", Eq(tot["loss"], Sum(all_loss)), info=inf)
+        ctx.check("total-efficiency", Implies(And(okp, Gt(tot["pwr"], 0.0), Le(tot["loss"], tot["pwr"])), And(Eq(tot["eff"] * tot["pwr"], 100.0 * (tot["pwr"] - tot["loss"])), Le(tot["eff"], 100.0))), info=inf)
+        if opts.get("energy"):
+            ctx.check("energy=power*share-of-24h", Eq(tot["energy"], energy_ref(tot["pwr"], ph, durations)), info=inf)
+        phase_tot[ph] = tot
+    if len(durations) > 1 and "phase" not in opts:
+        avg = None
+        for ph, rows in rows_by_phase.items():
+            if "System average" in rows:
+                avg = rows["System average"]
+        if avg is None:
+            ctx.fail("system-average-row-present")
+            return
+        ctx.cover("average")
+        ttot = Sum(list(durations.values()))
+        for key, lab in (("pwr", "average-power"), ("loss", "average-loss"), ("eff", "average-efficiency")):
+            ref = Sum([phase_tot[p][key] * durations[p] for p in durations])
+            ctx.check(lab + "=duration-weighted-mean", Eq(avg[key] * ttot, ref), info={"row": "System average"})
+        if opts.get("energy"):
+            ctx.check("average-energy=power*24", Eq(avg["energy"], avg["pwr"] * 24.0), info={"row": "System average"})
+            ctx.check("phase-energies-add-up-to-average-energy",
+                      Eq(Sum([phase_tot[p]["energy"] for p in durations]), avg["energy"]), info={"row": "System average"})
+
+
+def energy_ref(pwr, ph, durations):
+    if ph == "":
+        return pwr * 24.0
+    ttot = Sum(list(durations.values()))
+    # power x the phase's share of 24 h
+    return Div(pwr * 24.0 * durations[ph], ttot)
+
+
+ORACLES = {"c01": oracle_c01, "c02": oracle_c02, "c04": oracle_c04, "c05": oracle_c05, "c07": oracle_c07}
